@@ -6,7 +6,7 @@
    table position and its data at its offset.  That the planned ranges of one
    save() never overlap is Properties_C04 (objects without segments) and the
    correspondence run (objects with segments): partial at whole-object level. *)
-From ElfioV Require Import Bytes Mem Stream SectionData Strings Elfio Table Loader Layout Writer Codec_proofs Ostream_proofs.
+From ElfioV Require Import Bytes Mem Stream SectionData Strings Elfio Table Loader Layout Writer Codec_proofs Ostream_proofs Layout_proofs Writer_proofs.
 Local Open Scope N_scope.
 
 Theorem C03_header_record_decodes :
@@ -65,6 +65,39 @@ Proof.
   rewrite rd_some by lia. cbn [bind]. unfold sliceN. rewrite skipnN_0. reflexivity.
 Qed.
 Print Assumptions C03_section_plan.
+
+(* Objects without segments, end to end.  After the layout step (chain of
+   sections after the ELF header, section header table after them:
+   C04_layout_without_segments / noseg_ranges_disjoint) the writes of save() are
+   the plan [noseg_plan] (C03_sections_plan_is_the_plan), and in the saved file
+   the ELF header is found at 0, every section's header record at
+   e_shoff + e_shentsize * index and every non-empty section's data at its
+   offset — each verbatim, hence (by the three record theorems above) decoding
+   to what was put in. *)
+Theorem C03_noseg_saved_file :
+  forall (h : ehdr) (secs : list section) (pos' : N),
+    chain secs (e_ehsize h) pos' -> indexed_from 0 secs -> pos' <= e_shoff h ->
+    (forall s, In s secs -> shdr_size (s_cls s) <= e_shentsize h) ->
+    (forall s, In s secs -> s_index s = 0 -> csize s = 0) ->
+    lenN (e_ident h) = 16 -> e_ehsize h = ehdr_size (e_cls h) ->
+    (forall s b, In s secs -> s_data s = Some b -> sh_size s <= lenN b) ->
+    plan_small 0 (noseg_plan h secs) ->
+    let file := os_bytes (exec_plan (new_ostream None) (noseg_plan h secs)) in
+    sliceN file 0 (ehdr_size (e_cls h)) = ehdr_bytes h /\
+    (forall s, In s secs ->
+       sliceN file (e_shoff h + e_shentsize h * s_index s) (shdr_size (s_cls s)) = shdr_bytes (e_enc h) s) /\
+    (forall s b, In s secs -> csize s <> 0 -> s_data s = Some b ->
+       sliceN file (sh_offset s) (sh_size s) = firstnN b (sh_size s)).
+Proof. exact noseg_file_contents. Qed.
+Print Assumptions C03_noseg_saved_file.
+
+Theorem C03_sections_plan_is_the_plan :
+  forall junk enc h st todo done acc,
+    e_shoff h < 2 ^ 63 -> Forall ready todo ->
+    sections_plan junk enc h [] st done todo acc =
+      Ok (st, rev_append done [] ++ todo, acc ++ flat_map (sec_writes enc (e_shoff h) (e_shentsize h)) todo).
+Proof. exact sections_plan_noseg. Qed.
+Print Assumptions C03_sections_plan_is_the_plan.
 
 Definition ex_plan : list (N * bytes) := [(0, [1; 2; 3; 4]); (8, [5; 6]); (2, [9])].
 Example C03_example :
